@@ -12,7 +12,7 @@ use crate::parser::{
     CsrImm, HasRegisterSets, InstructionProperties, LabelString, LabelStringToken,
     RegisterProperties,
 };
-use crate::parser::{ParserNode, Register};
+use crate::parser::{LoadType, ParserNode, Register};
 use crate::passes::{CfgError, GenerationPass};
 
 use super::memory_location::MemoryLocation;
@@ -329,6 +329,11 @@ fn rule_expand_address_for_load(
 ) {
     if let Some(store_reg) = node.writes_to() {
         if let ParserNode::Load(load) = node {
+            // A tracked memory value is a word: a narrower load gets a part of
+            // it, which is not tracked
+            if !matches!(load.inst.get(), LoadType::Lw | LoadType::Lwu) {
+                return;
+            }
             if let Some(AvailableValue::OriginalRegisterWithScalar(reg, off)) =
                 available_in.get(load.rs1.get())
             {
@@ -493,10 +498,15 @@ fn rule_push_value_to_csr_memory(
 }
 
 fn rule_pull_value_from_csr_memory(
-    node: &impl InstructionProperties,
+    node: &ParserNode,
     available_out: &mut AvailableValueMap<Register>,
     memory_out: &AvailableValueMap<MemoryLocation>,
 ) {
+    // Only a word load gets the whole value
+    if !matches!(node, ParserNode::Load(load) if matches!(load.inst.get(), LoadType::Lw | LoadType::Lwu))
+    {
+        return;
+    }
     // If the node reads from memory
     if let Some(((reg, off), dest)) = node.reads_from_memory() {
         // If the source address is a csr memory location
